@@ -16,8 +16,12 @@ package router
 //@ ensures result.Completion.Router.Matched ==> result.Completion.Router.Recv != nil
 
 //@ func TagSource$1
-//@ props C19
+//@ props C19 C08
 //@ nopanic C13
+// a JSON tag routes only if it is exactly a receiver object: it is decoded strictly (unknown fields refused), so
+// that {"type":"http","url":...} - no data, a stray field - does not route (C08: no task that can never be delivered)
+//@ abstract-calls force ^DisallowUnknownFields$
+//@ site return assert [C19 C08] has_key(p.Tags, config.Key) && jsonvalid(p.Tags[config.Key]) ==> calls("DisallowUnknownFields") == 1
 //@ requires [captured] config != nil
 //@ requires p != nil && p.Tags != nil
 //@ ensures result1 ==> result0 != nil
